@@ -4,6 +4,19 @@ VERIF = os.path.dirname(os.path.dirname(os.path.abspath(__file__)))
 ALL = ["C%02d" % i for i in range(1, 21)]
 
 CLAIMS = {
+ "C18": dict(
+    text="Coq theorems over a model of get_method and of the code in front of it in all ten functionals: "
+         "dispatch is case-insensitive for every string, unknown names are rejected (never defaulted), callables are "
+         "passed through, custom callables receive the caller's options minus `method`; the name tables are "
+         "regenerated from /repo by a translator on every run and table facts (keys lower-case/distinct, every key, "
+         "documented name and default dispatches) are re-proved by computation. Exact spy-based correspondence of "
+         "the dispatch outcome through the public API; gradient-independence from the forward method is checked "
+         "on the implementation with closed-form callables (1st and 2nd order).",
+    note="Trusted: Coq kernel + vm_compute; translator (ast+reflection); spy harness. ASCII names. The clause "
+         "'gradients identical for any forward method' is an implementation oracle, not a theorem (it follows from the "
+         "backward models of C02/C04/C08/C13 having no data path from the method).",
+    technique="Coq proof over translator-regenerated tables + exact dispatch correspondence + closed-form-callable gradient oracle",
+    ref="DESIGN.md section 7, C18"),
  "C20": dict(
     text="Coq theorems over a Gallina model of Packer (extract/put round-trip, unique index spec, aliasing, "
          "flat round-trip, state = function of structure and of which get_* occurred, rejections) for all "
